@@ -1,10 +1,10 @@
 (* C13/Props.v — the property theorems, nothing else.
    Model: C13/Model.v (src/shlex.py, src/callbacks.py Tokenizer/tokenize, utils.str.dqrepr, CPython unicode_escape),
-   C13/Utf8.v (strict UTF-8, Latin-1).  Proofs: Utf8.v, Lemmas.v, Roundtrip.v, Dqrepr.v, Brackets.v.
+   C13/Utf8.v (strict UTF-8, Latin-1).  Proofs: Utf8.v, Lemmas.v, Roundtrip.v, Dqrepr.v, Brackets.v, Nested.v.
    [named] is the unicodedata name table behind \N{...}: any function. *)
 From Coq Require Import List NArith.
 Import ListNotations.
-Require Import Base.Wire Base.PyStr C13.Utf8 C13.Model C13.Lemmas C13.Roundtrip C13.Dqrepr C13.Brackets.
+Require Import Base.Wire Base.PyStr C13.Utf8 C13.Model C13.Lemmas C13.Roundtrip C13.Dqrepr C13.Brackets C13.Nested.
 
 (* Tokenising any text (any code points, lone surrogates included) under any
    configuration yields a tree of string tokens or SyntaxError, never another failure. *)
@@ -77,3 +77,21 @@ Theorem C13_brackets_tokens_partial :
   top named t (S (length (flat_map (toks lb rb) l))) (flat_map (toks lb rb) l) None [] [] = Ok l.
 Proof. exact brackets_tokens. Qed.
 Print Assumptions C13_brackets_tokens_partial.
+
+(* The quote round trip wherever the arguments are placed: n opening brackets, the
+   minimally quoted arguments, n closing brackets (nested_text) tokenise to the n-fold
+   nesting of exactly those arguments — for every depth n, every bracket pair that is
+   lexically a bracket (all of ValidBrackets.validStrings are: lemma valid_brackets_lex_ok),
+   every pipe setting, every quote set containing the double quote and neither bracket,
+   every list of scalar-value strings.  In particular a quoted argument that is exactly
+   "]" or "[" (or "|", or a quote) inside a nested command stays a string. *)
+Theorem C13_quote_roundtrip_nested :
+  forall named (c : cfg) lb rb (n : nat) (args : list str),
+  c_nested c = true -> c_brackets c = Some (lb, rb) -> mem DQ (c_quotes c) = true ->
+  is_ws lb = false -> is_ws rb = false ->
+  mem lb (c_quotes c) = false -> mem rb (c_quotes c) = false ->
+  N.eqb lb rb = false -> N.eqb lb gen.T13.PIPE = false ->
+  Forall (fun a => forallb scalar a = true) args ->
+  tokenize named c (nested_text lb rb n args) = Ok (nest n (map Leaf args)).
+Proof. exact quote_roundtrip_nested. Qed.
+Print Assumptions C13_quote_roundtrip_nested.
